@@ -14,13 +14,24 @@ From Aqua Require Stream.
 Open Scope N_scope.
 Open Scope list_scope.
 
-Definition streams_of (x : ctx) : Stream.streams vagg := e_streams (x_ext x).
-(* Streams::get *)
-Definition get_stream (x : ctx) (name : string) (p : N) : option (Stream.stream vagg) :=
-  Stream.streams_get vagg (streams_of x) name p.
-(* write through Streams::get_mut *)
-Definition put_stream (x : ctx) (name : string) (p : N) (s : Stream.stream vagg) : ctx :=
-  with_streams x (Stream.streams_set vagg (streams_of x) name p s).
+(* the two tables with the same structure: Streams and StreamMaps (a stream map IS a stream of {key, value} objects) *)
+Inductive table := TStreams | TMaps.
+Definition table_of (t : table) (x : ctx) : Stream.streams vagg :=
+  match t with TStreams => e_streams (x_ext x) | TMaps => e_stream_maps (x_ext x) end.
+Definition with_table (t : table) (x : ctx) (m : Stream.streams vagg) : ctx :=
+  match t with
+  | TStreams => with_streams x m
+  | TMaps => set_ext x {| e_streams := e_streams (x_ext x); e_stream_maps := m; e_canon_maps := e_canon_maps (x_ext x) |}
+  end.
+Definition streams_of (x : ctx) : Stream.streams vagg := table_of TStreams x.
+(* Streams::get / StreamMaps::get *)
+Definition get_in (t : table) (x : ctx) (name : string) (p : N) : option (Stream.stream vagg) :=
+  Stream.streams_get vagg (table_of t x) name p.
+(* write through get_mut *)
+Definition put_in (t : table) (x : ctx) (name : string) (p : N) (s : Stream.stream vagg) : ctx :=
+  with_table t x (Stream.streams_set vagg (table_of t x) name p s).
+Definition get_stream := get_in TStreams.
+Definition put_stream := put_in TStreams.
 
 Definition of_sres {A} (r : Stream.sres A) : pres A :=
   match r with
@@ -67,10 +78,39 @@ Definition set_canon_value (x : ctx) (name : string) (c : canon_wp) : pres ctx :
   | inr e => PErr (sm_to_err e)
   end.
 
-(* epilog_closure *)
-Definition canon_epilog (x : ctx) (name : string) (values : list vagg) (t : tetraplet) (c : cid) : xres :=
-  lift x (set_canon_value x name {| cw_values := values; cw_tetraplet := t; cw_cid := c |}) (fun x1 =>
-    XOk (set_handler x1 (meet_canon_end cid (x_handler x1) (CanonExecuted c)))).
+(* the three canon instructions share canon_utils; they differ in the producer and in the epilog *)
+Inductive canon_kind :=
+| CKStream (canon_name : string)         (* canon.rs *)
+| CKMap (canon_map_name : string)        (* canon_map.rs *)
+| CKMapScalar (scalar_name : string).    (* canon_stream_map_scalar.rs *)
+
+Definition set_canon_map_value (x : ctx) (name : string) (c : canon_map_wp) : pres ctx :=
+  match Scalars.set_value canon_map_wp (e_canon_maps (x_ext x)) name c with
+  | inl (m, _) => POk (with_canon_maps x m)
+  | inr e => PErr (sm_to_err e)
+  end.
+
+(* CanonStreamMap::from_canon_stream: every element must be a {key, value} object with a supported key *)
+Definition kv_pairs_valid (values : list vagg) : bool :=
+  forallb (fun v => match kv_key v, kv_value v with Some _, Some _ => true | _, _ => false end) values.
+
+(* epilog_closure of the three instructions *)
+Definition canon_epilog (k : canon_kind) (x : ctx) (values : list vagg) (t : tetraplet) (c : cid) : xres :=
+  let finish (x1 : ctx) : xres := XOk (set_handler x1 (meet_canon_end cid (x_handler x1) (CanonExecuted c))) in
+  match k with
+  | CKStream name =>
+      lift x (set_canon_value x name {| cw_values := values; cw_tetraplet := t; cw_cid := c |}) finish
+  | CKMap name =>
+      if negb (kv_pairs_valid values) then XErr (EUncatch UStreamMapKeyError) x else
+      lift x (set_canon_map_value x name {| cmw_values := values; cmw_tetraplet := t; cmw_cid := c |}) finish
+  | CKMapScalar name =>
+      match values with
+      | [] => XErr (EUncatch UCanonStreamMapError) x
+      | v :: _ =>
+          let pos := trace_pos_of x in
+          lift x (set_scalar_value x name (VACanon (va_result v) (tp_peer t) (tp_lens t) pos c)) finish
+      end
+  end.
 
 (* ExecutionCidState::track_canon_value for every value, then the tetraplet and the result aggregate
    (populate_unseen_cid_context) *)
@@ -83,13 +123,40 @@ Definition track_canon_values (cs : cid_state) (vs : list vagg) : cid_state :=
        cs_canon_elems := cid_track (canon_elem_cid v) (cs_canon_elems acc);
        cs_canon_results := cs_canon_results acc; cs_services := cs_services acc |}) vs cs.
 
-(* create_canon_stream_for_first_time *)
-Definition create_canon_first_time (x : ctx) (stream : var) (canon_name : string) (peer : string) : xres :=
-  (* create_canon_stream_producer: the stream's values in iteration order, or nothing *)
-  let values := match get_stream x (v_name stream) (v_pos stream) with
+(* StreamMap::iter_unique_key_object: the first pair of every key TEXT (42 and "42" are one key here) *)
+Fixpoint unique_key_objects (vs : list vagg) (seen : list string) : list (string * json) :=
+  match vs with
+  | [] => []
+  | v :: r =>
+      match va_result v with
+      | JObj kvs =>
+          match option_map map_key_to_string (match obj_get "key" kvs with Some j => stream_map_key_from_value j | None => None end) with
+          | Some ks =>
+              if existsb (String.eqb ks) seen then unique_key_objects r seen
+              else match obj_get "value" kvs with
+                   | Some j => (ks, j) :: unique_key_objects r (ks :: seen)
+                   | None => unique_key_objects r (ks :: seen)        (* the key is marked as met before the value is looked up *)
+                   end
+          | None => unique_key_objects r seen
+          end
+      | _ => unique_key_objects r seen
+      end
+  end.
+
+(* create_canon_stream_producer of the three instructions: the values to canonicalize *)
+Definition canon_producer (k : canon_kind) (t : table) (x : ctx) (stream : var) (peer : string) : list vagg :=
+  let values := match get_in t x (v_name stream) (v_pos stream) with
                 | Some s => Stream.stream_iter vagg s
                 | None => []
                 end in
+  match k with
+  | CKStream _ | CKMap _ => values
+  | CKMapScalar _ => [VALiteral (jobj_of (unique_key_objects values [])) peer 0]
+  end.
+
+(* create_canon_stream_for_first_time *)
+Definition create_canon_first_time (k : canon_kind) (tb : table) (x : ctx) (stream : var) (peer : string) : xres :=
+  let values := canon_producer k tb x stream peer in
   let t := canon_tetraplet peer in
   let cs1 := track_canon_values (x_cids x) values in
   let tc := CTetraplet t in
@@ -98,7 +165,7 @@ Definition create_canon_first_time (x : ctx) (stream : var) (canon_name : string
                 cs_canon_elems := cs_canon_elems cs1; cs_canon_results := cid_track rc (cs_canon_results cs1);
                 cs_services := cs_services cs1 |} in
   let x1 := record_cid (set_cids x cs2 (x_tracker x)) peer rc in
-  canon_epilog x1 canon_name values t rc.
+  canon_epilog k x1 values t rc.
 
 (* ExecutionCidState::get_canon_value_by_cid: the aggregate with a fake trace position *)
 Definition canon_value_by_cid (cs : cid_state) (c : cid) : pres vagg :=
@@ -124,7 +191,7 @@ Definition verify_canon (expected stored : tetraplet) : pres unit :=
   if tetraplet_eqb expected stored then POk tt else PErr (EUncatch (UInstructionParametersMismatch "canon tetraplet")).
 
 (* handle_canon_executed *)
-Definition handle_canon_executed (x : ctx) (p : peer_arg) (canon_name : string) (c : cid) : xres :=
+Definition handle_canon_executed (k : canon_kind) (x : ctx) (p : peer_arg) (c : cid) : xres :=
   lift x (resolve_peer_id_to_string x p) (fun peer =>
     let cs := x_cids x in
     if negb (cid_mem c (cs_canon_results cs)) then XErr (EUncatch (UValueForCidNotFound "canon result aggregate")) x else
@@ -137,24 +204,24 @@ Definition handle_canon_executed (x : ctx) (p : peer_arg) (canon_name : string) 
             lift x (canon_values_by_cids cs vcs) (fun values =>
               (* populate_seen_cid_context *)
               let x1 := record_cid x (tp_peer t) c in
-              canon_epilog x1 canon_name values t c))
+              canon_epilog k x1 values t c))
         | _ => XUnsupported "store entry whose content is not modelled"
         end
     | _ => XUnsupported "store entry whose content is not modelled"
     end).
 
-Definition exec_canon (x : ctx) (p : peer_arg) (stream : var) (canon : var) : xres :=
+Definition exec_canon_generic (k : canon_kind) (tb : table) (x : ctx) (p : peer_arg) (stream : var) : xres :=
   with_handler x (meet_canon_start cid cid_eqb (x_handler x)) (fun rh =>
     let x0 := set_handler x (snd rh) in
     match fst rh with
-    | CanonMet _ (CanonExecuted c) => handle_canon_executed x0 p (v_name canon) c
+    | CanonMet _ (CanonExecuted c) => handle_canon_executed k x0 p c
     | CanonMet _ (CanonRequestSentBy sender) =>
         (* handle_canon_request_sent_by: no join behaviour *)
         lift x0 (resolve_peer_id_to_string x0 p) (fun peer =>
           if negb (String.eqb (current_peer x0) peer) then
             let x1 := make_incomplete x0 in
             XOk (set_handler x1 (meet_canon_end cid (x_handler x1) (CanonRequestSentBy sender)))
-          else create_canon_first_time x0 stream (v_name canon) peer)
+          else create_canon_first_time k tb x0 stream peer)
     | CanonEmpty _ =>
         (* handle_unseen_canon *)
         match resolve_peer_id_to_string x0 p with
@@ -165,9 +232,75 @@ Definition exec_canon (x : ctx) (p : peer_arg) (stream : var) (canon : var) : xr
             if negb (String.eqb (current_peer x0) peer) then
               let x1 := set_next_peers (make_incomplete x0) (x_next_peers x0 ++ [peer]) in
               XOk (set_handler x1 (meet_canon_end cid (x_handler x1) (CanonRequestSentBy (current_peer x1))))
-            else create_canon_first_time x0 stream (v_name canon) peer
+            else create_canon_first_time k tb x0 stream peer
         end
     end).
+Definition exec_canon (x : ctx) (p : peer_arg) (stream canon : var) : xres :=
+  exec_canon_generic (CKStream (v_name canon)) TStreams x p stream.
+
+(* ------------------------------------------------------------------------------------------ *)
+(* ap into a stream map: ap_map.rs *)
+
+(* resolve_key_if_needed *)
+Definition resolve_map_key (x : ctx) (k : Air.map_key) : pres Lens.map_key :=
+  let of_resolved (r : pres resolved) : pres Lens.map_key :=
+    dop rr <- r;
+    match stream_map_key_from_value (fst (fst rr)) with
+    | Some key => POk key
+    | None => PErr (ECatch CStreamMapError)
+    end in
+  match k with
+  | KLiteral s => POk (MKStr s)
+  | KInt z => POk (MKInt z)
+  | KScalar v => of_resolved (resolve_scalar x (v_name v))
+  | KScalarL v => of_resolved (resolve_scalar_l x v)
+  | KCanonL v => of_resolved (resolve_canon_l x v)
+  end.
+
+(* stream_map.rs: from_key_value + StreamMap::insert *)
+Definition kv_object (k : Lens.map_key) (j : json) : json := JObj [("key"%string, map_key_to_json k); ("value"%string, j)].
+
+Definition exec_ap_map (x : ctx) (k : Air.map_key) (a : ap_arg) (m : var) : xres :=
+  match apply_to_arg x a true with
+  | PErr e => if is_joinable e then XOk (make_incomplete x) else XErr e x
+  | PCrash s => XCrash s
+  | PUnsupported w => XUnsupported w
+  | POk v =>
+      with_handler x (meet_ap_start cid (x_handler x)) (fun rh =>
+        let x0 := set_handler x (snd rh) in
+        match resolve_map_key x0 k with
+        | PErr e => if is_joinable e then XOk (make_incomplete x0) else XErr e x0
+        | PCrash s => XCrash s
+        | PUnsupported w => XUnsupported w
+        | POk key =>
+            let g := match fst rh with
+                     | ApNotMet => Stream.GNew
+                     | ApMet gen src => gen_of_source src gen
+                     end in
+            let obj := va_with_result v (kv_object key (va_result v)) in
+            match Stream.streams_add_stream_value vagg (table_of TMaps x0) (v_name m) obj g (v_pos m) with
+            | Stream.SOk tbl =>
+                let x1 := with_table TMaps x0 tbl in
+                XOk (set_handler x1 (meet_ap_end cid (x_handler x1) [generation_stub]))
+            | Stream.SErr _ => XErr (EUncatch UStreamSizeLimitExceeded) x0
+            | Stream.SCrash _ => XCrash "ValuesMatrix: generation index does not fit u32"
+            end
+        end)
+  end.
+
+(* new on a canon stream map: Scalars::meet_new_start_canon_stream_map / meet_new_end_canon_stream_map *)
+Definition exec_new_canon_map (run : instr -> ctx -> xres) (x : ctx) (v : var) (body : instr) : xres :=
+  let x1 := with_canon_maps x (Scalars.meet_new_start canon_map_wp (e_canon_maps (x_ext x)) (v_name v)) in
+  let fin (y : ctx) : pres ctx :=
+    match Scalars.meet_new_end canon_map_wp (e_canon_maps (x_ext y)) (v_name v) with
+    | inl m => POk (with_canon_maps y m)
+    | inr e => PErr (sm_to_err e)
+    end in
+  match run body x1 with
+  | XOk y => lift y (fin y) XOk
+  | XErr e y => match fin y with POk y' => XErr e y' | _ => XErr e y end
+  | r => r
+  end.
 
 (* ------------------------------------------------------------------------------------------ *)
 (* new on a stream: new.rs prolog / epilog *)
@@ -182,20 +315,20 @@ Definition run_compact_plan (x : ctx) (pl : Stream.compact_plan) : xres :=
   | Stream.CompactCrash _ => XCrash "Stream::compactify: generation index overflow"
   end.
 
-Definition new_stream_epilog (x : ctx) (name : string) : xres :=
-  match Stream.streams_meet_scope_end vagg va_pos (streams_of x) name with
-  | Stream.SOk (m, _, pl) => run_compact_plan (with_streams x m) pl
+Definition new_stream_epilog (t : table) (x : ctx) (name : string) : xres :=
+  match Stream.streams_meet_scope_end vagg va_pos (table_of t x) name with
+  | Stream.SOk (m, _, pl) => run_compact_plan (with_table t x m) pl
   | Stream.SErr _ => XErr (EUncatch UStreamSizeLimitExceeded) x
   | Stream.SCrash _ => XCrash "Streams::meet_scope_end: no stream / no descriptor"
   end.
 
-Definition exec_new_stream (run : instr -> ctx -> xres) (x : ctx) (sv : var) (body : instr) (sp : Air.span) : xres :=
-  let x1 := with_streams x (Stream.streams_meet_scope_start vagg (streams_of x) (v_name sv) (air_span_to_stream sp)) in
+Definition exec_new_stream (t : table) (run : instr -> ctx -> xres) (x : ctx) (sv : var) (body : instr) (sp : Air.span) : xres :=
+  let x1 := with_table t x (Stream.streams_meet_scope_start vagg (table_of t x) (v_name sv) (air_span_to_stream sp)) in
   match run body x1 with
-  | XOk y => new_stream_epilog y (v_name sv)
+  | XOk y => new_stream_epilog t y (v_name sv)
   | XErr e y =>
       (* the instruction's error has priority over the epilog's *)
-      match new_stream_epilog y (v_name sv) with
+      match new_stream_epilog t y (v_name sv) with
       | XOk y' => XErr e y'
       | XErr _ y' => XErr e y'
       | r => r
@@ -214,16 +347,14 @@ Definition fold_batch (run : instr -> ctx -> xres) (x : ctx) (batch : list vagg)
            (body : instr) (last : option instr) : xres :=
   let fs := {| fs_iterable := ItVec batch 0; fs_type := IterStream fold_id; fs_body := body; fs_last := last;
                fs_back_started := false |} in
-  let x1 := set_canons (set_scalars x (Scalars.meet_fold_start vagg (x_scalars x)))
-                       (Scalars.meet_fold_start canon_wp (x_canons x)) in
+  let x1 := all_fold_start x in
   match iter_get (x_iterables x1) (v_name iter) with
   | Some _ => XErr (EUncatch (UMultipleIterableValues (v_name iter))) x1
   | None =>
       let x2 := set_iterables x1 (iter_put (x_iterables x1) (v_name iter) fs) in
       let fin (y : ctx) : ctx :=
         let y1 := set_iterables y (iter_del (x_iterables y) (v_name iter)) in
-        set_canons (set_scalars y1 (Scalars.meet_fold_end vagg (x_scalars y1)))
-                   (Scalars.meet_fold_end canon_wp (x_canons y1)) in
+        all_fold_end y1 in
       match run body x2 with
       | XOk y => XOk (fin y)
       | XErr e y => XErr e (fin y)
@@ -263,7 +394,7 @@ Fixpoint execute_iterations (run : instr -> ctx -> xres) (x : ctx) (batches : li
 
 (* the `while let Continue` loop; [n] bounds the number of rounds (C13_cursor_terminates: at most
    STREAM_MAX_SIZE Continue answers) *)
-Fixpoint fold_stream_loop (n : nat) (run : instr -> ctx -> xres) (x : ctx) (st : Stream.cursor_state vagg)
+Fixpoint fold_stream_loop (t : table) (n : nat) (run : instr -> ctx -> xres) (x : ctx) (st : Stream.cursor_state vagg)
          (rc : Stream.rcursor) (sv iter : var) (body : instr) (last : option instr) (fold_id : N) (observed : bool)
   : xres * bool :=
   match st with
@@ -274,12 +405,12 @@ Fixpoint fold_stream_loop (n : nat) (run : instr -> ctx -> xres) (x : ctx) (st :
       | S n' =>
           match execute_iterations run x batches fold_id iter body last observed with
           | (XOk y, obs) =>
-              match get_stream y (v_name sv) (v_pos sv) with
+              match get_in t y (v_name sv) (v_pos sv) with
               | None => (XCrash "fold over a stream: get_mut(..).unwrap() on a stream that disappeared", obs)
               | Some s =>
                   match Stream.met_iteration_end vagg rc s with
                   | Stream.SOk (st', rc', s') =>
-                      fold_stream_loop n' run (put_stream y (v_name sv) (v_pos sv) s') st' rc' sv iter body last fold_id obs
+                      fold_stream_loop t n' run (put_in t y (v_name sv) (v_pos sv) s') st' rc' sv iter body last fold_id obs
                   | Stream.SErr _ => (XErr (EUncatch UStreamSizeLimitExceeded) y, obs)
                   | Stream.SCrash _ => (XCrash "stream cursor: generation index does not fit u32", obs)
                   end
@@ -291,8 +422,8 @@ Fixpoint fold_stream_loop (n : nat) (run : instr -> ctx -> xres) (x : ctx) (st :
 
 Definition fold_rounds : nat := N.to_nat (stream_max_size + 8).
 
-Definition exec_fold_stream (run : instr -> ctx -> xres) (x : ctx) (sv iter : var) (body : instr) (last : option instr) : xres :=
-  match get_stream x (v_name sv) (v_pos sv) with
+Definition exec_fold_stream (t : table) (run : instr -> ctx -> xres) (x : ctx) (sv iter : var) (body : instr) (last : option instr) : xres :=
+  match get_in t x (v_name sv) (v_pos sv) with
   | None => XOk (make_incomplete x)
   | Some s =>
       (* tracker.meet_fold_stream *)
@@ -303,8 +434,8 @@ Definition exec_fold_stream (run : instr -> ctx -> xres) (x : ctx) (sv iter : va
         | Stream.SErr _ => XErr (EUncatch UStreamSizeLimitExceeded) x2
         | Stream.SCrash _ => XCrash "stream cursor: generation index does not fit u32"
         | Stream.SOk (st, rc, s') =>
-            let x3 := put_stream x2 (v_name sv) (v_pos sv) s' in
-            match fold_stream_loop fold_rounds run x3 st rc sv iter body last fold_id false with
+            let x3 := put_in t x2 (v_name sv) (v_pos sv) s' in
+            match fold_stream_loop t fold_rounds run x3 st rc sv iter body last fold_id false with
             | (XOk y, obs) =>
                 (* observer.update_completeness, meet_fold_end *)
                 let y1 := set_complete y obs in
@@ -342,11 +473,9 @@ Definition exec_next_stream (run : instr -> ctx -> xres) (x : ctx) (iter : var) 
       | None => XCrash "peek on an empty iterable"
       | Some item =>
           with_trace x1 (meet_iteration_start cid (x_handler x1) fold_id (it_pos item)) (fun x2 =>
-            let x3 := set_canons (set_scalars x2 (Scalars.meet_next_before vagg (x_scalars x2)))
-                                 (Scalars.meet_next_before canon_wp (x_canons x2)) in
+            let x3 := all_next_before x2 in
             let after (y : ctx) : ctx :=
-              set_canons (set_scalars y (Scalars.meet_next_after vagg (x_scalars y)))
-                         (Scalars.meet_next_after canon_wp (x_canons y)) in
+              all_next_after y in
             match run (fs_body fs) x3 with
             | XOk y =>
                 let y1 := after y in
@@ -369,9 +498,15 @@ Definition exec_next_stream (run : instr -> ctx -> xres) (x : ctx) (iter : var) 
 Definition stream_instr (run : instr -> ctx -> xres) (i : instr) (x : ctx) : option xres :=
   match i with
   | IAp _ a (ApStream sv) => Some (exec_ap_stream x a sv)
-  | ICanon _ p s c => Some (exec_canon x p s c)
-  | INew _ (NStream sv) body sp => Some (exec_new_stream run x sv body sp)
-  | IFoldStream _ sv iter body last _ => Some (exec_fold_stream run x sv iter body last)
+  | ICanon _ p s c => Some (exec_canon_generic (CKStream (v_name c)) TStreams x p s)
+  | INew _ (NStream sv) body sp => Some (exec_new_stream TStreams run x sv body sp)
+  | INew _ (NStreamMap sv) body sp => Some (exec_new_stream TMaps run x sv body sp)
+  | INew _ (NCanonMap v) body _ => Some (exec_new_canon_map run x v body)
+  | IFoldStream _ sv iter body last _ => Some (exec_fold_stream TStreams run x sv iter body last)
+  | IFoldStreamMap _ sv iter body last _ => Some (exec_fold_stream TMaps run x sv iter body last)
+  | IApMap _ k a m => Some (exec_ap_map x k a m)
+  | ICanonMap _ p m c => Some (exec_canon_generic (CKMap (v_name c)) TMaps x p m)
+  | ICanonStreamMapScalar _ p m sc => Some (exec_canon_generic (CKMapScalar (v_name sc)) TMaps x p m)
   | INext _ iter =>
       match iter_get (x_iterables x) (v_name iter) with
       | Some fs => match fs_type fs with
@@ -388,10 +523,16 @@ Definition stream_instr (run : instr -> ctx -> xres) (i : instr) (x : ctx) : opt
    HashMap iteration order is [streams_keys]: updates of different streams touch different trace
    positions, see C20) *)
 
+Definition compactify_table (t : table) (x : ctx) : xres :=
+  let '(m, pl) := Stream.streams_compactify vagg va_pos (Stream.streams_keys vagg (table_of t x)) (table_of t x) in
+  run_compact_plan (with_table t x m) pl.
 Definition finish_streams (x : ctx) : ctx + uncatchable :=
-  let '(m, pl) := Stream.streams_compactify vagg va_pos (Stream.streams_keys vagg (streams_of x)) (streams_of x) in
-  match run_compact_plan (with_streams x m) pl with
-  | XOk y => inl y
+  match compactify_table TStreams x with
+  | XOk y => match compactify_table TMaps y with
+             | XOk z => inl z
+             | XErr (EUncatch u) _ => inr u
+             | _ => inr UGenerationCompactificationError
+             end
   | XErr (EUncatch u) _ => inr u
   | _ => inr UGenerationCompactificationError
   end.
